@@ -6,9 +6,11 @@
 // time. For each type an honest instance is built from a live world state in the name of a
 // principal B (validator, user or the governance authority); it is first delivered honestly
 // (template validity), then as attacks by an account A that holds no fee grant from B:
-//   foreign-signer   creator = B, signers = [A], signed by A
-//   creator-swapped  creator = A, signers = [A], signed by A, body unchanged (still naming B / B's things)
-//   authority-*      for authority-gated messages: authority kept / replaced by A
+//
+//	foreign-signer   creator = B, signers = [A], signed by A
+//	creator-swapped  creator = A, signers = [A], signed by A, body unchanged (still naming B / B's things)
+//	authority-*      for authority-gated messages: authority kept / replaced by A
+//
 // All through the application's REAL ante chain and message router (baseapp runTx semantics on a
 // fork of the state). Oracle: if an attack is accepted, the view of B (everything Paloma keeps in
 // B's name, read through exported getters) and the governance view must be unchanged.
@@ -18,6 +20,8 @@ import (
 	"encoding/hex"
 	"encoding/json"
 	"fmt"
+	"github.com/cosmos/cosmos-sdk/x/authz"
+	gogoproto "github.com/cosmos/gogoproto/proto"
 	"math/rand"
 	"reflect"
 	"sort"
@@ -212,6 +216,33 @@ func setMeta(msg sdk.Msg, creator, signer string) bool {
 	return true
 }
 
+func setMetaMany(msg sdk.Msg, creator string, signers []string) bool {
+	v := reflect.ValueOf(msg).Elem()
+	f := v.FieldByName("Metadata")
+	if !f.IsValid() || !f.CanSet() {
+		return false
+	}
+	md, ok := f.Interface().(valsettypes.MsgMetadata)
+	if !ok {
+		return false
+	}
+	md.Creator = creator
+	md.Signers = append([]string{}, signers...)
+	f.Set(reflect.ValueOf(md))
+	return true
+}
+
+// attackerAccounts: existing accounts other than the victim (users first, then validators), all under the attacker's control.
+func (m *mon) attackerAccounts(victim *chain.Account) []*chain.Account {
+	var out []*chain.Account
+	for _, a := range append(append([]*chain.Account{}, m.w.Users...), m.w.Vals...) {
+		if a.Bech != victim.Bech && a.Bech != m.UB.Bech && a.Bech != m.VB.Bech {
+			out = append(out, a)
+		}
+	}
+	return out
+}
+
 func setAuthority(msg sdk.Msg, a string) bool {
 	f := reflect.ValueOf(msg).Elem().FieldByName("Authority")
 	if !f.IsValid() || f.Kind() != reflect.String {
@@ -303,8 +334,9 @@ type attack struct {
 	name   string
 	signer *chain.Account
 	msg    sdk.Msg
-	pre    []sdk.Msg // messages placed BEFORE msg in the same tx (multi-message attacks)
-	exempt string    // non-empty: an accepted change of B's view is allowed by the property (reason)
+	pre    []sdk.Msg        // messages placed BEFORE msg in the same tx (multi-message attacks)
+	co     []*chain.Account // further accounts of the attacker that sign the tx as well (multi-signer attacks)
+	exempt string           // non-empty: an accepted change of B's view is allowed by the property (reason)
 }
 
 func (m *mon) attacks(tp template, url string) []attack {
@@ -331,6 +363,39 @@ func (m *mon) attacks(tp template, url string) []attack {
 				decoy := &palomatypes.MsgAddStatusUpdate{Status: "decoy", Level: palomatypes.MsgAddStatusUpdate_LEVEL_INFO,
 					Metadata: valsettypes.MsgMetadata{Creator: m.puppet.Bech, Signers: []string{X.Bech}}}
 				out = append(out, attack{name: "foreign-signer-behind-delegated-message-by-" + who, signer: X, msg: clone(c, a1), pre: []sdk.Msg{decoy}})
+			}
+		}
+		// the forged message signed by SEVERAL accounts of the attacker (3 and 5 signers, none of them B, in both
+		// orders): signer lists longer than one take other paths through decoding and validation
+		if X == m.UA {
+			pool := m.attackerAccounts(tp.owner)
+			for _, n := range []int{3, 5} {
+				if len(pool) < n {
+					continue
+				}
+				for variant := 0; variant < 2; variant++ {
+					set := append([]*chain.Account{}, pool[:n]...)
+					if variant == 1 {
+						for i, j := 0, len(set)-1; i < j; i, j = i+1, j-1 {
+							set[i], set[j] = set[j], set[i]
+						}
+					}
+					am := clone(c, tp.msg)
+					var names []string
+					for _, a := range set {
+						names = append(names, a.Bech)
+					}
+					if setMetaMany(am, tp.owner.Bech, names) {
+						out = append(out, attack{name: fmt.Sprintf("foreign-signers-%d-order-%d-by-user", n, variant), signer: set[0], co: set[1:], msg: am})
+					}
+				}
+			}
+		}
+		// the forged message (creator B, signers [A]) wrapped in an authz MsgExec sent by A: nested messages must not
+		// escape the ownership check
+		if aw := clone(c, tp.msg); setMeta(aw, tp.owner.Bech, X.Bech) && tp.kind != "gov" {
+			if any, err := codectypes.NewAnyWithValue(aw.(gogoproto.Message)); err == nil {
+				out = append(out, attack{name: "foreign-signer-inside-authz-exec-by-" + who, signer: X, msg: &authz.MsgExec{Grantee: X.Bech, Msgs: []*codectypes.Any{any}}})
 			}
 		}
 		a2 := clone(c, tp.msg)
@@ -587,7 +652,7 @@ func (m *mon) oneTemplate(url string, tp template) {
 		}
 	}
 	for _, at := range m.attacks(tp, url) {
-		tx, err := m.sign(at.signer, append(append([]sdk.Msg{}, at.pre...), at.msg)...)
+		tx, err := m.c.SignTx(append([]*chain.Account{at.signer}, at.co...), append(append([]sdk.Msg{}, at.pre...), at.msg), chain.TxOpts{})
 		if err != nil {
 			m.rec.Count("attack_unsignable", 1)
 			continue
